@@ -1245,8 +1245,10 @@ class TransactionEvaluator:
         if func is None:
             raise ExpressionError(f"Unknown function: {func_name}")
 
-        # Evaluate arguments
+        # Evaluate arguments (the text functions take values, not one-shot generators:
+        # str() of a generator object would put its repr and address into the result)
         args = [self.evaluate(arg) for arg in node.args]
+        args = [list(a) if isinstance(a, types.GeneratorType) else a for a in args]
 
         # Call the function
         return func(*args)
